@@ -183,30 +183,33 @@ def seg_strategy():
 def render_doc(segs):
     """(document, document with comments deleted, number of comments)."""
     full = []
-    without = []
+    without = ""
     n = 0
-    prev = None
+    # True when the character directly before the current position is a
+    # line break that belongs to a text segment (not to a nowiki span, not
+    # to an already deleted comment)
+    tail_nl = False
     for s in segs:
         if s[0] == "text":
-            full.append(s[1])
-            without.append(s[1])
+            if s[1]:
+                full.append(s[1])
+                without += s[1]
+                tail_nl = s[1].endswith("\n")
         elif s[0] == "nowiki":
             w = "<nowiki>" + s[1] + "</nowiki>"
             full.append(w)
-            without.append(w)
+            without += w
+            tail_nl = False
         else:
             n += 1
             nl = "\n" if s[1] else ""
             full.append(nl + "<!--" + s[2] + "-->")
             # "(and the line break directly before it) deleted": all
-            # deletions are made on the original text at once, so only a
-            # text segment standing directly before the comment can lose
-            # its final line break
-            if not nl and prev == "text" and without[-1].endswith("\n"):
-                without[-1] = without[-1][:-1]
-        if not (s[0] == "text" and s[1] == ""):
-            prev = s[0]
-    return "".join(full), "".join(without), n
+            # deletions are made on the original text at once
+            if not nl and tail_nl:
+                without = without[:-1]
+            tail_nl = False
+    return "".join(full), without, n
 
 
 def comment_domain_ok(segs, full, without):
